@@ -122,4 +122,5 @@ Next == \/ /\ phase = 0
            /\ UNCHANGED <<table, ctx, path>>
 
 EmitInv == phase = 2 => EmitCase("tw", CaseLine)
+IdemInv == phase = 2 => IdempotentAll(CaseLine)
 =============================================================================
